@@ -37,17 +37,20 @@ CONSTANTS Sigs,            \* watched signal numbers
           ActionOrder,     \* "store_then_wake" (the code) | "wake_then_store"
           ConsumerOrder,   \* "drain_then_scan" (the code) | "scan_then_drain"
           CloseOrder,      \* "flag_then_wake" (the code) | "wake_then_flag"
-          PollRecheck      \* TRUE (after the fix of D1)
+          PollRecheck,     \* TRUE (after the fix of D1)
+          CbArms           \* a non-blocking callback that answers "nothing" leaves the caller's waker
+                           \* armed on the read end (the async adapters: observed, see AsyncOps.tla)
 
 VARIABLES flag, bytes, closed,
           hpc, hidx,        \* handler threads: pc and position in their delivery script
           npc, nsig, nnest, \* the handler nested on the consumer: pc, signal, how many so far
           cpc, ci, scanPos, batchOpen, consulted, lastAns, result,
           clpc,             \* closers
+          armed,            \* the reactor holds the poller's waker (non-blocking callback only)
           begun, yielded, bad
 
 vars == <<flag, bytes, closed, hpc, hidx, npc, nsig, nnest, cpc, ci, scanPos, batchOpen, consulted,
-          lastAns, result, clpc, begun, yielded, bad>>
+          lastAns, result, clpc, armed, begun, yielded, bad>>
 
 First(o) == IF o = "store_then_wake" THEN "store" ELSE "wake"
 SortedSigs == CHOOSE s \in [1..Cardinality(Sigs) -> Sigs] :
@@ -60,7 +63,7 @@ Init ==
     /\ npc = "none" /\ nsig = 0 /\ nnest = 0
     /\ cpc = "idle" /\ ci = 1 /\ scanPos = NS + 1 /\ batchOpen = FALSE
     /\ consulted = FALSE /\ lastAns = FALSE /\ result = "none"
-    /\ clpc = [t \in Closers |-> "start"]
+    /\ clpc = [t \in Closers |-> "start"] /\ armed = FALSE
     /\ begun = [s \in Sigs |-> 0] /\ yielded = [s \in Sigs |-> 0]
     /\ bad = {}
 
@@ -73,7 +76,7 @@ H_Begin(t) ==
     /\ hpc' = [hpc EXCEPT ![t] = First(ActionOrder)]
     /\ begun' = [begun EXCEPT ![HSig(t)] = @ + 1]
     /\ UNCHANGED <<flag, bytes, closed, hidx, npc, nsig, nnest, cpc, ci, scanPos, batchOpen,
-                   consulted, lastAns, result, clpc, yielded, bad>>
+                   consulted, lastAns, result, clpc, armed, yielded, bad>>
 
 H_Store(t) ==
     /\ hpc[t] = "store"
@@ -82,7 +85,7 @@ H_Store(t) ==
        THEN hpc' = [hpc EXCEPT ![t] = "wake"] /\ UNCHANGED hidx
        ELSE hpc' = [hpc EXCEPT ![t] = "idle"] /\ hidx' = [hidx EXCEPT ![t] = @ + 1]
     /\ UNCHANGED <<bytes, closed, npc, nsig, nnest, cpc, ci, scanPos, batchOpen, consulted,
-                   lastAns, result, clpc, begun, yielded, bad>>
+                   lastAns, result, clpc, armed, begun, yielded, bad>>
 
 H_Wake(t) ==
     /\ hpc[t] = "wake"
@@ -91,7 +94,7 @@ H_Wake(t) ==
        THEN hpc' = [hpc EXCEPT ![t] = "idle"] /\ hidx' = [hidx EXCEPT ![t] = @ + 1]
        ELSE hpc' = [hpc EXCEPT ![t] = "store"] /\ UNCHANGED hidx
     /\ UNCHANGED <<flag, closed, npc, nsig, nnest, cpc, ci, scanPos, batchOpen, consulted,
-                   lastAns, result, clpc, begun, yielded, bad>>
+                   lastAns, result, clpc, armed, begun, yielded, bad>>
 
 (* the action, nested on the consumer's thread (the consumer does not step meanwhile) *)
 N_Begin(s) ==
@@ -99,21 +102,21 @@ N_Begin(s) ==
     /\ npc' = First(ActionOrder) /\ nsig' = s /\ nnest' = nnest + 1
     /\ begun' = [begun EXCEPT ![s] = @ + 1]
     /\ UNCHANGED <<flag, bytes, closed, hpc, hidx, cpc, ci, scanPos, batchOpen, consulted,
-                   lastAns, result, clpc, yielded, bad>>
+                   lastAns, result, clpc, armed, yielded, bad>>
 
 N_Store ==
     /\ npc = "store"
     /\ flag' = [flag EXCEPT ![nsig] = TRUE]
     /\ npc' = IF ActionOrder = "store_then_wake" THEN "wake" ELSE "none"
     /\ UNCHANGED <<bytes, closed, hpc, hidx, nsig, nnest, cpc, ci, scanPos, batchOpen, consulted,
-                   lastAns, result, clpc, begun, yielded, bad>>
+                   lastAns, result, clpc, armed, begun, yielded, bad>>
 
 N_Wake ==
     /\ npc = "wake"
     /\ bytes' = bytes + 1
     /\ npc' = IF ActionOrder = "store_then_wake" THEN "none" ELSE "store"
     /\ UNCHANGED <<flag, closed, hpc, hidx, nsig, nnest, cpc, ci, scanPos, batchOpen, consulted,
-                   lastAns, result, clpc, begun, yielded, bad>>
+                   lastAns, result, clpc, armed, begun, yielded, bad>>
 
 ----------------------------------------------------------------------------
 (* close() *)
@@ -124,7 +127,7 @@ Cl_Step(t) ==
                  ELSE bytes' = bytes + 1 /\ UNCHANGED closed
     /\ clpc' = [clpc EXCEPT ![t] = IF @ = "start" THEN "second" ELSE "done"]
     /\ UNCHANGED <<flag, hpc, hidx, npc, nsig, nnest, cpc, ci, scanPos, batchOpen, consulted,
-                   lastAns, result, begun, yielded, bad>>
+                   lastAns, result, armed, begun, yielded, bad>>
 
 ----------------------------------------------------------------------------
 (* the consumer; it only steps while no handler is nested on it *)
@@ -139,6 +142,7 @@ C_Start ==
                 [] OTHER -> "pclosed"          \* poll_signal: while !closed
     /\ scanPos' = IF Call \in {"pending", "wait"} THEN 1 ELSE scanPos
     /\ batchOpen' = IF Call \in {"pending", "wait"} THEN FALSE ELSE batchOpen
+    /\ armed' = FALSE          \* only a waker armed during the call that answers Pending counts
     /\ UNCHANGED <<flag, bytes, closed, hpc, hidx, npc, nsig, nnest, ci, clpc, begun, yielded, bad>>
 
 \* wait(): poll_pending's closed check; closed -> pending() directly
@@ -146,7 +150,7 @@ C_Closed1 ==
     /\ npc = "none" /\ cpc = "closed1"
     /\ cpc' = IF closed THEN AfterCb ELSE "cb"
     /\ UNCHANGED <<flag, bytes, closed, hpc, hidx, npc, nsig, nnest, ci, scanPos, batchOpen,
-                   consulted, lastAns, result, clpc, begun, yielded, bad>>
+                   consulted, lastAns, result, clpc, armed, begun, yielded, bad>>
 
 \* the readiness callback
 Blocking == Call \in {"wait", "pollb"}
@@ -159,6 +163,7 @@ C_Cb ==
     /\ cpc' = IF bytes > 0 THEN (IF Call \in {"pollb", "polln"} THEN "flush" ELSE AfterCb)
               ELSE "ret_pending"
     /\ scanPos' = IF bytes > 0 THEN 1 ELSE scanPos
+    /\ armed' = IF ~Blocking /\ bytes = 0 THEN CbArms ELSE armed
     /\ UNCHANGED <<flag, closed, hpc, hidx, npc, nsig, nnest, ci, batchOpen, result, clpc, begun,
                    yielded, bad>>
 
@@ -168,7 +173,7 @@ C_Flush ==
     /\ cpc' = IF Call \in {"pollb", "polln"} THEN "pclosed"       \* new batch, back to the loop top
               ELSE IF ConsumerOrder = "drain_then_scan" THEN "scan" ELSE "scandone"
     /\ UNCHANGED <<flag, closed, hpc, hidx, npc, nsig, nnest, ci, scanPos, batchOpen, consulted,
-                   lastAns, result, clpc, begun, yielded, bad>>
+                   lastAns, result, clpc, armed, begun, yielded, bad>>
 
 \* One slot of the scan. wait()/pending() hand back the whole batch, so they scan on;
 \* poll_signal returns the first signal it finds and keeps its position for the next call.
@@ -187,7 +192,7 @@ C_Scan ==
             ELSE /\ scanPos' = scanPos + 1
                  /\ UNCHANGED <<flag, yielded, cpc, result>>
     /\ UNCHANGED <<bytes, closed, hpc, hidx, npc, nsig, nnest, ci, batchOpen, consulted, lastAns,
-                   clpc, begun, bad>>
+                   clpc, armed, begun, bad>>
 
 C_ScanDone ==
     /\ npc = "none" /\ cpc = "scandone"
@@ -196,7 +201,7 @@ C_ScanDone ==
        ELSE cpc' = "return"
     /\ result' = IF Call \in {"pollb", "polln"} THEN result ELSE "batch"
     /\ UNCHANGED <<flag, bytes, closed, hpc, hidx, npc, nsig, nnest, ci, scanPos, batchOpen,
-                   consulted, lastAns, clpc, begun, yielded, bad>>
+                   consulted, lastAns, clpc, armed, begun, yielded, bad>>
 
 \* poll_signal: `while !is_closed()`, then continue the current batch
 C_PClosed ==
@@ -205,7 +210,7 @@ C_PClosed ==
        ELSE /\ cpc' = IF scanPos <= NS THEN "scan" ELSE "ppoll"
             /\ UNCHANGED result
     /\ UNCHANGED <<flag, bytes, closed, hpc, hidx, npc, nsig, nnest, ci, scanPos, batchOpen,
-                   consulted, lastAns, clpc, begun, yielded, bad>>
+                   consulted, lastAns, clpc, armed, begun, yielded, bad>>
 
 \* poll_pending inside poll_signal: its own closed check
 C_PPoll ==
@@ -215,7 +220,7 @@ C_PPoll ==
             ELSE cpc' = "ret_pending" /\ UNCHANGED result
        ELSE cpc' = "cb" /\ UNCHANGED result
     /\ UNCHANGED <<flag, bytes, closed, hpc, hidx, npc, nsig, nnest, ci, scanPos, batchOpen,
-                   consulted, lastAns, clpc, begun, yielded, bad>>
+                   consulted, lastAns, clpc, armed, begun, yielded, bad>>
 
 \* Pending is reported (for wait(): the callback is blocking, so this is unreachable)
 C_RetPending ==
@@ -224,13 +229,13 @@ C_RetPending ==
     /\ bad' = bad \cup (IF consulted /\ ~lastAns THEN {} ELSE {"pending_without_consulting"})
     /\ cpc' = "return"
     /\ UNCHANGED <<flag, bytes, closed, hpc, hidx, npc, nsig, nnest, ci, scanPos, batchOpen,
-                   consulted, lastAns, clpc, begun, yielded>>
+                   consulted, lastAns, clpc, armed, begun, yielded>>
 
 C_Return ==
     /\ npc = "none" /\ cpc = "return"
     /\ cpc' = "idle" /\ ci' = ci + 1
     /\ UNCHANGED <<flag, bytes, closed, hpc, hidx, npc, nsig, nnest, scanPos, batchOpen, consulted,
-                   lastAns, result, clpc, begun, yielded, bad>>
+                   lastAns, result, clpc, armed, begun, yielded, bad>>
 
 CStep == C_Start \/ C_Closed1 \/ C_Cb \/ C_Flush \/ C_Scan \/ C_ScanDone \/ C_PClosed \/ C_PPoll
          \/ C_RetPending \/ C_Return
@@ -267,6 +272,13 @@ Unreported == \E s \in Sigs : flag[s]
 BlockedInRead == cpc = "cb" /\ Blocking /\ bytes = 0
 Parked == cpc = "idle" /\ result = "pending"
 NoLostWakeup == ((BlockedInRead \/ Parked) /\ ~closed /\ Unreported) => WakeOutstanding
+
+\* C09 / C11 for an async poller: a task parked on Pending relies on the waker the callback armed
+\* during that very call; and once close() has completed the byte it wrote is still there for
+\* the reactor to see.
+ParkedIsArmed == Parked => armed
+ParkedWokenByClose ==
+    (Parked /\ closed /\ \A t \in Closers : clpc[t] = "done") => (armed /\ bytes > 0)
 
 \* C10: never more yields than deliveries begun.
 YieldBounded == \A s \in Sigs : yielded[s] <= begun[s]
